@@ -76,11 +76,11 @@ Qed.
 
 (* sum (x - m)^2 = sum x^2 - 2 m sum x + n m^2, for every m *)
 Lemma rsum_dev_sq : forall l m,
-  rsum (map sqr (map (fun x => x - m) l)) == rsum (map sqr l) - 2 * m * rsum l + qlen l * (m * m).
+  rsum (map sqr (map (fun x => Qred (x - m)) l)) == rsum (map sqr l) - 2 * m * rsum l + qlen l * (m * m).
 Proof.
   induction l as [|x l IH]; intros m.
   - cbn [map]. rewrite !rsum_nil. unfold qlen, zlen. cbn. ring.
-  - cbn [map]. rewrite !rsum_cons, IH, qlen_cons. unfold sqr. ring.
+  - cbn [map]. rewrite !rsum_cons, IH, qlen_cons. unfold sqr. rewrite Qred_correct. ring.
 Qed.
 
 Lemma mean_eq : forall l, mean l == rsum l / qlen l.
